@@ -20,8 +20,8 @@ import (
 	"mosn.io/mosn/pkg/stream"
 	_ "mosn.io/mosn/pkg/stream/http2"
 	"mosn.io/mosn/pkg/types"
-	"mosn.io/pkg/variable"
 	"mosn.io/pkg/buffer"
+	"mosn.io/pkg/variable"
 
 	. "vh/vhlib"
 )
@@ -31,13 +31,16 @@ type dispConn struct {
 	closed bool
 }
 
-func (c *dispConn) SetTransferEventListener(func() bool)                     {}
-func (c *dispConn) AddConnectionEventListener(api.ConnectionEventListener)   {}
-func (c *dispConn) RawConn() net.Conn                                        { return nil }
-func (c *dispConn) ID() uint64                                               { return 1 }
-func (c *dispConn) LocalAddr() net.Addr                                      { return &net.TCPAddr{} }
-func (c *dispConn) RemoteAddr() net.Addr                                     { return &net.TCPAddr{} }
-func (c *dispConn) Close(api.ConnectionCloseType, api.ConnectionEvent) error { c.closed = true; return nil }
+func (c *dispConn) SetTransferEventListener(func() bool)                   {}
+func (c *dispConn) AddConnectionEventListener(api.ConnectionEventListener) {}
+func (c *dispConn) RawConn() net.Conn                                      { return nil }
+func (c *dispConn) ID() uint64                                             { return 1 }
+func (c *dispConn) LocalAddr() net.Addr                                    { return &net.TCPAddr{} }
+func (c *dispConn) RemoteAddr() net.Addr                                   { return &net.TCPAddr{} }
+func (c *dispConn) Close(api.ConnectionCloseType, api.ConnectionEvent) error {
+	c.closed = true
+	return nil
+}
 
 type gotReq struct {
 	Stream  string
